@@ -464,7 +464,7 @@ func (g *G) Email() string {
 }
 
 // BranchName draws from a small pool whose members are prefixes of each other.
-var branchPool = []string{"main", "a", "b", "a.b", "ab", "a-b", "dev", "b_1", "B", "main2", "ma", "z.9", ".wip", "b.", ".a", "_", "0", "a.tmp", "main.tmp", "b.lock", "a~", "w", "w ", " w", "Main", "HEAD", "W"}
+var branchPool = []string{"main", "a", "b", "a.b", "ab", "a-b", "dev", "b_1", "B", "main2", "ma", "z.9", ".wip", "b.", ".a", "_", "0", "a.tmp", "main.tmp", "b.lock", "a~", "w", "w ", " w", "Main", "HEAD", "W", "head", "Head"}
 
 func (g *G) BranchName() string { return g.Pick(branchPool, "branch") }
 
